@@ -27,7 +27,7 @@ from bind import _pyscope as ps
 
 PROP = "C15"
 
-MAIN_GROUPS = ["core", "nest", "core2", "defnames", "targets", "comp", "calls", "decoys"]
+MAIN_GROUPS = ["core", "nest", "layout", "blocks", "methods", "core2", "defnames", "targets", "comp", "calls", "decoys"]
 FEATURE_GROUPS = ["params", "stmts", "walrus", "lambda"]
 
 _ROOT = None
@@ -179,7 +179,7 @@ def _split(cause):
 
 # binders that rope routes through one mechanism (_ScopeVisitor._assigned); the
 # remaining ones (def, class, import) write the scope table directly
-ASSIGN_LIKE = ("bind", "for", "with", "except", "walrus", "walrus-in-comp", "aug", "del", "matchcap", "annbind")
+ASSIGN_LIKE = ("bind", "for", "with", "with2", "except", "walrus", "walrus-in-comp", "aug", "del", "matchcap", "annbind")
 
 
 def compare(prog, r, info, obs):
@@ -368,7 +368,7 @@ def _binders(prog, s, n):
     return sorted(out)
 
 
-BIND_OPS = {"bind", "import", "importfrom", "for", "with", "except", "aug", "del", "matchcap", "walrus",
+BIND_OPS = {"bind", "import", "importfrom", "for", "with", "with2", "except", "aug", "del", "matchcap", "walrus",
             "annbind", "param", "posonly", "kwonly", "vararg", "kwarg", "defname"}
 
 
